@@ -38,8 +38,12 @@ Spell(tag, v) ==
 Same == [t |-> "same"]
 C(kind, f, a, pos, tag) == [kind |-> kind, f |-> f, args |-> a, pos |-> pos, tag |-> tag, base |-> <<>>]
 
-BadTexts == << Txt(<<97, 98, 99>>), Txt(<<120>>), Txt(<<35>>) >>               \* abc  x  #
-OddTexts == << Txt(<<51, 32, 97, 112, 112, 108, 101, 115>>), Txt(<<120, 51>>) >>   \* "3 apples" "x3": an error value or a value, never an exception
+BadTexts == << Txt(<<97, 98, 99>>), Txt(<<120>>), Txt(<<35>>),                  \* abc  x  #
+               Txt(<<110, 97, 110>>), Txt(<<105, 110, 102>>), Txt(<<45, 73, 110, 102, 105, 110, 105, 116, 121>>) >>   \* nan  inf  -Infinity: words, not numbers
+OddTexts == << Txt(<<51, 32, 97, 112, 112, 108, 101, 115>>), Txt(<<120, 51>>),     \* "3 apples" "x3": an error value or a value, never an exception
+               Txt(<<49, 101, 57, 57, 57>>),                                          \* 1e999: never an infinity
+               Txt(<<49, 47, 49, 47>> \o [i \in 1..20 |-> 57]),                        \* 1/1/99999999999999999999
+               Txt(<<49, 50, 58>> \o [i \in 1..20 |-> 57]) >>                          \* 12:99999999999999999999
 Scalars == << Whole(3), Rat(1, 2), Txt(<<51>>), Txt(<<49, 46, 53>>), Txt(<<50, 69, 43, 48>>), Bool(TRUE), Bool(FALSE), Blank,
               Txt(<<97>>), Whole(0), Txt(<<>>) >>
 NS == Len(Scalars)
